@@ -97,7 +97,13 @@ def terminators():
         out.append((tag, lines, cls, mro_of(cls), 'exec', len(lines) - 1 if tag not in ('recursion', 'import-missing') else None))
     blocked = [('blocked-compile', ['compile("1", "", "eval")']), ('blocked-eval', ['eval("1")']), ('blocked-exec', ['exec("1")']),
                ('blocked-globals', ['globals()']), ('blocked-exit', ['exit()']), ('blocked-open', ['open("secret.txt")']),
-               ('blocked-import-pedal', ['import pedal'])]
+               ('blocked-import-pedal', ['import pedal']),
+               # write access to an existing file, in every spelling of the mode (none of these truncates; nothing is written)
+               ('blocked-open-rplus', ['f = open("README.rst", "r+")', 'f.close()']),
+               ('blocked-open-rbplus', ['f = open("README.rst", "rb+")', 'f.close()']),
+               ('blocked-open-rplusb', ['f = open("README.rst", "r+b")', 'f.close()']),
+               ('blocked-open-rtplus', ['f = open("README.rst", mode="rt+")', 'f.close()']),
+               ('blocked-open-append', ['f = open("README.rst", "a")', 'f.close()'])]
     for tag, lines in blocked:
         # raised inside pedal's replacement function, not on a student line: the location clause does not apply
         out.append((tag, lines, None, None, 'exec', None))
@@ -150,6 +156,15 @@ def build_cases(rng, tier):
             if entry == 'run':
                 cases.append({'tag': tag, 'entry': 'run', 'files': {'answer.py': code}, 'steps': [{'entry': 'run'}],
                               'cls': 'SyntaxError', 'mro': None, 'where': 'compile', 'line': line, 'raise_file': 'answer.py'})
+    # the file is split into sections: a failure in a later section is located on the line of the WHOLE file
+    pre = 'a = 1\nb = 2\n##### Part 1\n'
+    for tag, body, cls, where, line in (('section-compile-error', 'x = 1\nif x\n    y = 2\n', 'SyntaxError', 'compile', 5),
+                                        ('section-indent-error', 'x = 1\nif x:\ny = 2\n', 'IndentationError', 'compile', 6),
+                                        ('section-runtime-error', 'x = 1\ny = 1 / 0\n', 'ZeroDivisionError', 'exec', 5)):
+        cases.append({'tag': tag, 'entry': 'run', 'files': {'answer.py': pre + body}, 'sections': True,
+                      'steps': [{'entry': 'next_section', 'setup': True}, {'entry': 'run'}],
+                      'cls': cls, 'mro': mro_of(cls) if where == 'exec' else None, 'where': where, 'line': line, 'raise_file': 'answer.py',
+                      'skip_model': True})
     # an epilogue (run(after=...)) longer than the student's file, calling a student function that raises
     cases.append({'tag': 'after-epilogue', 'entry': 'run', 'files': {'answer.py': 'def boom():\n    raise ValueError("late")\n'},
                   'steps': [{'entry': 'runafter', 'after': '\n' * 12 + 'boom()\n'}],
@@ -292,7 +307,7 @@ def oracle_c04(case, steps):
 def correspondence(ctx):
     rng = ctx.rng
     cases = build_cases(rng, ctx.tier)
-    res = vlib.run_impl('c05_impl.py', {'cases': [{'files': c['files'], 'steps': c['steps']} for c in cases]}, timeout=1500)
+    res = vlib.run_impl('c05_impl.py', {'cases': [{'files': c['files'], 'steps': c['steps'], 'sections': c.get('sections', False)} for c in cases]}, timeout=1500)
     ex_site, co_site = sites()
     items = []
     for case, steps in zip(cases, res):
